@@ -28,8 +28,34 @@ def level_element(g, eid, SR, N, chans, levels):
     return ops
 
 
+def int_array_case(g):
+    """raw waveforms handed over as unsigned / signed integer arrays, float32 arrays or lists (volts that happen to be whole
+    numbers), integer offsets: every delivered sample is still (v - offset)/(amplitude/2)"""
+    r = g.r
+    SR = r.choice([10, 100, 1e3])
+    N = r.randint(4, 9)
+    dt = r.choice(["uint8", "uint8", "int64", "float32", "list", "uint16"])
+    amp, off = r.choice([(2, 1), (4, 1), (4, 2), (6, 3)])
+    lo, hi = off - amp // 2, off + amp // 2
+    ops = [{"op": "sq.new", "id": "s"}, {"op": "sq.setSR", "id": "s", "v": enc(SR)}, {"op": "el.new", "id": "e1"}]
+    chans = r.sample([1, 2, "A"], r.randint(1, 2))
+    for ch in chans:
+        vals = [r.randint(max(lo, 0), hi) for _ in range(N)]
+        ops.append({"op": "el.addArray", "id": "e1", "ch": ch, "wfm": [q(v) for v in vals], "SR": enc(SR),
+                    "kw": [["m1", [j % 2 for j in range(N)]], ["m2", [0] * N]], "_dtype": dt})
+    ops.append({"op": "sq.addElement", "id": "s", "pos": 1, "el": "e1"})
+    for ch in chans:
+        ops += [{"op": "sq.setAmp", "id": "s", "ch": ch, "v": amp}, {"op": "sq.setOff", "id": "s", "ch": ch, "v": off}]
+    if r.random() < 0.5:
+        ops.append({"op": "sq.setDelay", "id": "s", "ch": chans[0], "v": enc(2 / SR)})
+    ops += [{"op": "sq.awg", "id": "s"}, {"op": "sq.forge", "id": "s", "delays": True, "filters": True, "time": False}]
+    return ops
+
+
 def case(g, tier, ci):
     r = g.r
+    if ci % 12 == 7:
+        return int_array_case(g)
     sg = SeqGen(g)
     SR = r.choice([1, 10, 100, 1e3, 1e6])
     chans = r.sample([3, 1, 2, "B", "A"], r.randint(1, 3))
